@@ -192,6 +192,41 @@ func splitOffset(e *Engine, idx *Form) (m int64, off *Atom, ok bool) {
 	return m, off, off != nil
 }
 
+// emptyRectPath reports whether the path conditions say that <img>.Bounds()
+// is empty: Bounds().Empty() held, or an exact comparison implies
+// Max.X <= Min.X or Max.Y <= Min.Y.
+func emptyRectPath(e *Engine, conds []*BoolVal, img string) bool {
+	rect := appAgg(e, "invoke:Bounds", img)
+	if rect == nil {
+		return false
+	}
+	want := "call:(image.Rectangle).Empty(" + valKey(rect) + ")"
+	var plain []*BoolVal
+	for _, c := range conds {
+		if c == nil {
+			continue
+		}
+		if c.Key() == want {
+			return true
+		}
+		cc := *c
+		cc.Src, cc.Exact = nil, nil // image coordinates: comparisons are read exactly (as in S1)
+		plain = append(plain, &cc)
+	}
+	facts := e.factsOf(plain)
+	for k := 0; k < 2; k++ {
+		mn, _ := formAt(rect, 0, k)
+		mx, _ := formAt(rect, 1, k)
+		if mn == nil || mx == nil {
+			continue
+		}
+		if ok, _ := e.proveGE0(mn.Sub(mx), facts); ok {
+			return true
+		}
+	}
+	return false
+}
+
 func runC10(p *Program, r *Report) {
 	r.Explanation = "One generic iteration of each of the four worker closures of linear.TransformImageColor is abstractly interpreted (loop counters symbolic), which yields for EVERY pixel and EVERY parallelism: (S1) rows src.Bounds().Min.Y+workerNum step workerCount, columns Min.X step 1 — a partition of the source rectangle into residue classes; (S2) the only stores are to dst.Pix[PixOffset(j+dx, i+dy)+k], k = 0..bpp−1 each exactly once, or one dst.Set(j+dx, i+dy, ·), with (dx,dy) = dst.Bounds().Min − src.Bounds().Min, and nothing else is written (captured variables, src, other elements); (S3) the value is transformColor(src.At(j,i)) [RGBA64At in the RGBA64→RGBA64 arm] evaluated once from the current (j,i), laid out as the image package documents (RGBA64: hi,lo bytes per channel; RGBA: high bytes) which is the destination model's conversion of a color.RGBA64; (S4) the type switch has a generic default arm; (S5) the eight Linearise/EncodeImage wrappers pass (dst, src, parallelism) positionally with their own package's per-colour function and no type-specific shortcut. Derived: in-place use reads each pixel before overwriting it and never reads a pixel another iteration writes. Not decided: behaviour when dst is smaller than src (excluded), library facts about PixOffset/Set."
 	r.RuleText = "one instance per closure clause (stripes, write targets, value, read) and per wrapper; facts come from one generic loop iteration, i.e. they hold for every pixel index"
@@ -208,18 +243,30 @@ func runC10(p *Program, r *Report) {
 		r.Undecide("C10.S1", "linear.TransformImageColor", p.FnPos(fn), err.Error())
 		return
 	}
-	// every path of the dispatcher must hand the work to exactly one worker closure
-	nret := 0
+	// every path of the dispatcher must hand the work to exactly one worker closure;
+	// a path taken only when the source rectangle is empty has no pixel to convert
+	nret, nEmpty := 0, 0
 	for _, o := range outs {
-		if o.Kind == "return" {
-			nret++
+		if o.Kind != "return" {
+			continue
 		}
+		calls := 0
+		for _, ev := range o.St.events {
+			if ev.Kind == "call" && strings.HasSuffix(ev.Fn, "parallel.RunWorkers") {
+				calls++
+			}
+		}
+		if calls == 0 && len(sites) > 0 && emptyRectPath(sites[0].E, o.St.conds, "src") {
+			nEmpty++
+			continue
+		}
+		nret++
 	}
 	groups := map[int]bool{}
 	for _, ws := range sites {
 		groups[ws.Group] = true
 	}
-	r.Check(nret == len(groups) && len(groups) >= 2, "C10.S4", "TransformImageColor dispatch", p.FnPos(fn), fmt.Sprintf("%d type-switch paths, each running exactly one worker closure", nret), fmt.Sprintf("%d paths but %d RunWorkers calls: some path converts no pixels or converts them twice", nret, len(groups)))
+	r.Check(nret == len(groups) && len(groups) >= 2, "C10.S4", "TransformImageColor dispatch", p.FnPos(fn), fmt.Sprintf("%d type-switch paths, each running exactly one worker closure (%d further paths taken only for an empty source rectangle)", nret, nEmpty), fmt.Sprintf("%d paths but %d RunWorkers calls: some path converts no pixels or converts them twice", nret, len(groups)))
 	hasDefault := false
 	for _, ws := range sites {
 		key := shortFn(ws.Closure)
@@ -676,7 +723,12 @@ func checkConvertArm(p *Program, r *Report, key, arm, target string, ws workerSi
 	inRect := &Agg{Elems: []Val{
 		&Agg{Elems: []Val{formAtom("img.Rect.Min.X"), formAtom("img.Rect.Min.Y")}},
 		&Agg{Elems: []Val{formAtom("img.Rect.Max.X"), formAtom("img.Rect.Max.Y")}}}}
-	allocOK := newEv != nil && valKey(newEv.Args[0]) == valKey(inRect) && valKey(o.Ret) == valKey(newEv.Res) && "*"+strings.ToLower("") != "x"
+	// for the concrete image types of the arms (image.RGBA, RGBA64, NRGBA, YCbCr) Bounds() returns the Rect
+	// field, so an output allocated with img.Bounds() before the type is known has the same rectangle
+	if bRect := appAgg(e, "invoke:Bounds", "img"); newEv != nil && valKey(newEv.Args[0]) == valKey(bRect) && strings.HasPrefix(arm, "*image.") {
+		inRect = bRect
+	}
+	allocOK := newEv != nil && valKey(newEv.Args[0]) == valKey(inRect) && valKey(o.Ret) == valKey(newEv.Res)
 	if allocOK {
 		allocOK = strings.HasSuffix(target, strings.TrimPrefix(newEv.Fn, "image.New"))
 	}
@@ -685,11 +737,26 @@ func checkConvertArm(p *Program, r *Report, key, arm, target string, ws workerSi
 		return
 	}
 	out := valKey(newEv.Res)
-	rowK, colK, ok := checkStripes(r, "C15.partition", key+" stripes", ws.Pos, ws, allSites, inRect, "output.Rect (= input.Rect)")
+	// loops that count relative to the rectangle's origin (row < Dy, col < Dx) work on pixel
+	// (col + Min.X, row + Min.Y); every later clause uses the same pixel coordinates
+	shX, shY := formInt(0), formInt(0)
+	if len(cf.Loops) == 2 {
+		minX, _ := formAt(inRect, 0, 0)
+		minY, _ := formAt(inRect, 0, 1)
+		maxX, _ := formAt(inRect, 1, 0)
+		maxY, _ := formAt(inRect, 1, 1)
+		if cf.Loops[0].Limit != nil && cf.Loops[0].Limit.Equal(maxY.Sub(minY)) {
+			shY = minY
+		}
+		if cf.Loops[1].Limit != nil && cf.Loops[1].Limit.Equal(maxX.Sub(minX)) {
+			shX = minX
+		}
+	}
+	rowK, colK, ok := checkStripes(r, "C15.partition", key+" stripes", ws.Pos, ws, allSites, inRect, "output.Rect (= input.Rect)", shX, shY)
 	if !ok {
 		return
 	}
-	i, j := formAtom(rowK), formAtom(colK)
+	i, j := formAtom(rowK).Add(shY), formAtom(colK).Add(shX)
 	isJI := func(a []Val, from int) bool {
 		if len(a) < from+2 {
 			return false
@@ -774,6 +841,14 @@ func checkConvertArm(p *Program, r *Report, key, arm, target string, ws workerSi
 		set := find(").SetRGBA64")
 		good := at != nil && rgba != nil && set != nil && len(cf.Calls) == 3 && len(cf.Stores) == 0
 		why := "expected per pixel: typed At(j,i), .RGBA(), SetRGBA64(j,i,·) and nothing else"
+		if at64 := find(").RGBA64At"); at64 != nil && set != nil && len(cf.Calls) == 2 && len(cf.Stores) == 0 {
+			// the typed RGBA64At(j,i) is documented (image.RGBA64Image) as At(j,i).RGBA() converted to color.RGBA64
+			aa, sa := realArgs(*at64), realArgs(*set)
+			ok64 := len(aa) == 3 && len(sa) == 4 && valKey(aa[0]) == "img" && isJI(aa, 1) && valKey(sa[0]) == out && isJI(sa, 1) && valKey(sa[3]) == valKey(at64.Res) &&
+				strings.HasPrefix(at64.Fn, "("+arm+")")
+			r.Check(ok64, rule, key, ws.Pos, "SetRGBA64(j, i, input.RGBA64At(j, i)) — the RGBA64Image contract of the input type", "pixel must be read with RGBA64At(j,i) from the input and that value written at (j,i) of the output; got "+trunc(valKey(Tuple(sa)), 200))
+			break
+		}
 		if good {
 			aa, sa := realArgs(*at), realArgs(*set)
 			good = valKey(aa[0]) == "img" && isJI(aa, 1) && valKey(realArgs(*rgba)[0]) == valKey(at.Res) && valKey(sa[0]) == out && isJI(sa, 1)
@@ -800,14 +875,35 @@ func checkConvertArm(p *Program, r *Report, key, arm, target string, ws workerSi
 		at := find(").YCbCrAt")
 		conv := find("color.YCbCrToRGB")
 		set := find(").SetNRGBA")
-		good := at != nil && conv != nil
-		why := "expected per pixel: YCbCrAt(j,i), color.YCbCrToRGB and one write of {r, g, b, 255} at (j,i)"
+		yo, co := find("(*image.YCbCr).YOffset"), find("(*image.YCbCr).COffset")
+		planes := at == nil && yo != nil && co != nil
+		good := (at != nil || planes) && conv != nil
+		why := "expected per pixel: YCbCrAt(j,i) (or the planes at YOffset/COffset(j,i)), color.YCbCrToRGB and one write of {r, g, b, 255} at (j,i)"
 		for _, ev := range cf.Calls {
-			if !(strings.HasSuffix(ev.Fn, ").YCbCrAt") || strings.HasSuffix(ev.Fn, "color.YCbCrToRGB") || strings.HasSuffix(ev.Fn, ").SetNRGBA") || strings.HasSuffix(ev.Fn, ".PixOffset")) {
+			if !(strings.HasSuffix(ev.Fn, ").YCbCrAt") || strings.HasSuffix(ev.Fn, "color.YCbCrToRGB") || strings.HasSuffix(ev.Fn, ").SetNRGBA") || strings.HasSuffix(ev.Fn, ".PixOffset") ||
+				planes && (strings.HasSuffix(ev.Fn, "(*image.YCbCr).YOffset") || strings.HasSuffix(ev.Fn, "(*image.YCbCr).COffset"))) {
 				good, why = false, "unexpected call "+ev.Fn
 			}
 		}
-		if good {
+		if good && planes {
+			// YCbCrAt(x,y) of an in-bounds point is {Y[YOffset(x,y)], Cb[COffset(x,y)], Cr[COffset(x,y)]} (image.YCbCr)
+			ya, ca2, ca := realArgs(*yo), realArgs(*co), realArgs(*conv)
+			good = len(ya) == 3 && len(ca2) == 3 && valKey(ya[0]) == "img" && isJI(ya, 1) && valKey(ca2[0]) == "img" && isJI(ca2, 1) && len(ca) == 3
+			why = "the plane offsets must be YOffset(j,i) and COffset(j,i) of the input"
+			if good {
+				for k, w := range []struct {
+					plane string
+					off   Val
+				}{{"img.Y", yo.Res}, {"img.Cb", co.Res}, {"img.Cr", co.Res}} {
+					va := appOf(e, ca[k])
+					if va == nil || va.Fn != "index" || len(va.Args) != 2 || valKey(va.Args[0]) != w.plane || valKey(va.Args[1]) != valKey(w.off) {
+						good = false
+						why = fmt.Sprintf("YCbCrToRGB argument %d is %s; required %s[%s(j,i)]", k+1, trunc(valKey(ca[k]), 120), w.plane, map[bool]string{true: "YOffset", false: "COffset"}[k == 0])
+						break
+					}
+				}
+			}
+		} else if good {
 			aa, ca := realArgs(*at), realArgs(*conv)
 			px, _ := at.Res.(*Agg)
 			good = valKey(aa[0]) == "img" && isJI(aa, 1) && px != nil && len(ca) == 3 && valKey(ca[0]) == valKey(px.Elems[0]) && valKey(ca[1]) == valKey(px.Elems[1]) && valKey(ca[2]) == valKey(px.Elems[2])
